@@ -120,7 +120,7 @@ Proof.
 Qed.
 
 (* ------------------------------------------------------------------ pre *)
-Lemma pre_halt cx s r : pre cx s = P_halt r ->
+Lemma pre_halt E cx s r : pre E cx s = P_halt r ->
   exists res, r = S_halt res /\ r_world res = s_world s /\ r_gas res = s_gas s /\ r_out res <> O_fuel.
 Proof.
   unfold pre, fail, halt. intros H.
@@ -130,7 +130,7 @@ Proof.
   end; try discriminate; inversion H; subst; eexists; (split; [reflexivity|]); cbn; repeat split; try reflexivity; discriminate.
 Qed.
 
-Lemma pre_ok cx s i s1 cg : inv s -> pre cx s = P_ok i s1 cg ->
+Lemma pre_ok E cx s i s1 cg : inv s -> pre E cx s = P_ok i s1 cg ->
   inv s1 /\ s_stack s1 = s_stack s /\
   (exists cost, s_gas s1 = s_gas s - cost /\ 0 <= cost <= s_gas s /\ 0 <= cg /\
                 (halting i = false -> 1 <= cost) /\
@@ -149,7 +149,7 @@ Proof.
   all: try match goal with H : (_ && (s_msize _ <? ?n)) = true |- _ => apply andb_prop in H; destruct H as [H' _]; apply Z.ltb_lt in H'; lia end.
 Qed.
 
-Lemma pre_static cx s i s1 cg : pre cx s = P_ok i s1 cg -> c_static cx = true ->
+Lemma pre_static E cx s i s1 cg : pre E cx s = P_ok i s1 cg -> c_static cx = true ->
   s_world s1 = s_world s /\ writes i = false /\ (i = I_CALLI K_CALL -> call_value K_CALL (s_stack s1) = 0).
 Proof.
   unfold pre. intros H Hs. rewrite Hs in H.
@@ -204,7 +204,7 @@ Lemma do_call_world runf E self cs vs static d k to v args gas w cc :
 Proof.
   intros Hrun Hs Hv. unfold do_call.
   destruct (1024 <? d); [reflexivity|]. destruct (_ && (balance w self <? v)); [reflexivity|].
-  destruct (precompile to); [reflexivity|].
+  destruct (precompile E to); [reflexivity|].
   destruct (_ && negb (exists_acct w to) && (v =? 0)); [reflexivity|].
   assert (Hw1 : (match k with K_CALL => transfer w self to v | _ => w end) = w).
   { destruct k; try reflexivity. rewrite (Hv eq_refl). reflexivity. }
@@ -221,7 +221,7 @@ Lemma do_call_failed runf E self cs vs static d k to v args gas w cc :
 Proof.
   unfold do_call.
   destruct (1024 <? d); [reflexivity|]. destruct (_ && (balance w self <? v)); [reflexivity|].
-  destruct (precompile to); [reflexivity|].
+  destruct (precompile E to); [reflexivity|].
   destruct (_ && negb (exists_acct w to) && (v =? 0)); [reflexivity|].
   destruct (code_of _ to); [cbn; congruence|].
   match goal with |- context [runf ?c ?st] => set (r := runf c st) end.
@@ -250,7 +250,7 @@ Proof.
   intros Hrun Hg. unfold do_call.
   destruct (1024 <? d). { cbn. split; [discriminate|lia]. }
   destruct (_ && (balance w self <? v)). { cbn. split; [discriminate|lia]. }
-  destruct (precompile to). { cbn. split; [discriminate|lia]. }
+  destruct (precompile E to). { cbn. split; [discriminate|lia]. }
   destruct (_ && negb (exists_acct w to) && (v =? 0)). { cbn. split; [discriminate|lia]. }
   destruct (code_of _ to). { cbn. split; [discriminate|lia]. }
   match goal with |- context [runf ?c ?st] => set (cx' := c); set (s' := st) end.
@@ -291,13 +291,13 @@ Qed.
 Inductive step_kind := SK_call (k : call_kind) | SK_create (two : bool) | SK_plain.
 Definition kind_of (i : instr) : step_kind :=
   match i with I_CALLI k => SK_call k | I_CREATE => SK_create false | I_CREATE2 => SK_create true | _ => SK_plain end.
-Lemma step_plain runf E cx s i s1 cg : pre cx s = P_ok i s1 cg -> kind_of i = SK_plain ->
+Lemma step_plain runf E cx s i s1 cg : pre E cx s = P_ok i s1 cg -> kind_of i = SK_plain ->
   step runf E cx s = exec_plain E cx i s1.
 Proof. intros H Hn. unfold step. rewrite H. destruct i; try reflexivity; discriminate. Qed.
-Lemma step_call runf E cx s k s1 cg : pre cx s = P_ok (I_CALLI k) s1 cg ->
+Lemma step_call runf E cx s k s1 cg : pre E cx s = P_ok (I_CALLI k) s1 cg ->
   step runf E cx s = exec_call runf E cx k s1 cg.
 Proof. intros H. unfold step. rewrite H. reflexivity. Qed.
-Lemma step_create runf E cx s i two s1 cg : pre cx s = P_ok i s1 cg -> kind_of i = SK_create two ->
+Lemma step_create runf E cx s i two s1 cg : pre E cx s = P_ok i s1 cg -> kind_of i = SK_create two ->
   step runf E cx s = exec_create runf E cx two s1.
 Proof. intros H Hk. unfold step. rewrite H. destruct i; try discriminate; inversion Hk; reflexivity. Qed.
 Lemma kind_call i k : kind_of i = SK_call k -> i = I_CALLI k.
@@ -311,11 +311,11 @@ Lemma run_gas fuel : forall E cx s, inv s -> s_gas s < Z.of_nat fuel ->
 Proof.
   induction fuel as [|f IH]; intros E cx s Hinv Hlt.
   { destruct Hinv as (_ & _ & Hg). lia. }
-  cbn [run]. destruct (pre cx s) as [r0|i s1 cg] eqn:Hpre.
+  cbn [run]. destruct (pre E cx s) as [r0|i s1 cg] eqn:Hpre.
   - (* halted before execution *)
-    destruct (pre_halt _ _ _ Hpre) as (res & -> & _ & Hgas & Hout).
+    destruct (pre_halt _ _ _ _ Hpre) as (res & -> & _ & Hgas & Hout).
     unfold step. rewrite Hpre. rewrite Hgas. destruct Hinv as (_ & _ & Hg). split; [assumption|lia].
-  - destruct (pre_ok _ _ _ _ _ Hinv Hpre) as (Hinv1 & Hstk & cost & Hg1 & Hc & Hcg & Hnh & Hcall).
+  - destruct (pre_ok _ _ _ _ _ _ Hinv Hpre) as (Hinv1 & Hstk & cost & Hg1 & Hc & Hcg & Hnh & Hcall).
     destruct Hinv1 as (Hst1 & Hm1 & Hgas1).
     destruct (kind_of i) as [k|two|] eqn:Hic.
     + (* call family *)
@@ -388,9 +388,9 @@ Qed.
 Lemma run_static fuel : forall E cx s, c_static cx = true -> r_world (run fuel E cx s) = s_world s.
 Proof.
   induction fuel as [|f IH]; intros E cx s Hs. { reflexivity. }
-  cbn [run]. destruct (pre cx s) eqn:Hpre.
-  - destruct (pre_halt _ _ _ Hpre) as (res & -> & Hw & _ & _). unfold step. rewrite Hpre. exact Hw.
-  - destruct (pre_static _ _ _ _ _ Hpre Hs) as (Hw1 & Hwr & Hval).
+  cbn [run]. destruct (pre E cx s) eqn:Hpre.
+  - destruct (pre_halt _ _ _ _ Hpre) as (res & -> & Hw & _ & _). unfold step. rewrite Hpre. exact Hw.
+  - destruct (pre_static _ _ _ _ _ _ Hpre Hs) as (Hw1 & Hwr & Hval).
     destruct (kind_of i) as [k|two|] eqn:Hic.
     + apply kind_call in Hic. subst i. rewrite (step_call _ _ _ _ _ _ _ Hpre).
       unfold exec_call.
@@ -458,7 +458,7 @@ Lemma step_mono runf rung E cx s :
   (forall res, step runf E cx s = S_halt res -> r_out res <> O_fuel) ->
   step rung E cx s = step runf E cx s.
 Proof.
-  intros Hsame Hnf. unfold step in *. destruct (pre cx s) as [r|i s1 cg]; [reflexivity|].
+  intros Hsame Hnf. unfold step in *. destruct (pre E cx s) as [r|i s1 cg]; [reflexivity|].
   assert (D : forall x, r_out x = O_fuel \/ r_out x <> O_fuel).
   { intros x. destruct (r_out x); (left; reflexivity) || (right; discriminate). }
   destruct i; try reflexivity.
@@ -514,7 +514,7 @@ Theorem call_top_fuel_irrelevant f f' E static to v input gas w :
 Proof.
   intros Hnf Hle. unfold call_top, do_call in *.
   destruct (1024 <? 0); [reflexivity|]. destruct (_ && (balance _ _ <? _)); [reflexivity|].
-  destruct (precompile to); [reflexivity|].
+  destruct (precompile E to); [reflexivity|].
   destruct (_ && negb (exists_acct _ _) && (_ =? 0)); [reflexivity|].
   destruct (code_of _ to); [reflexivity|].
   match goal with |- context [run f' E ?c ?st] => set (cx' := c) in *; set (s' := st) in * end.
